@@ -38,7 +38,7 @@ type Plan struct {
 
 func genPlan(t *rapid.T) Plan {
 	p := Plan{Fn: rapid.SampledFrom([]string{"Do", "DoContext", "DoContext", "Map", "MapContext", "MapContext"}).Draw(t, "fn")}
-	par := rapid.SampledFrom([]int{-1, 0, 1, 2, 3, 5}).Draw(t, "par")
+	par := rapid.SampledFrom([]int{-1, 0, 1, 2, 3, 5, -1, 0, 1, 2, 3, 5, 65, 130, 1000}).Draw(t, "par") // (dozens and more: workers may be started in groups)
 	eff := par
 	if eff <= 0 {
 		eff = runtime.GOMAXPROCS(-1)
@@ -54,6 +54,9 @@ func genPlan(t *rapid.T) Plan {
 	p.Lat = rapid.SampledFrom([]string{"zero", "inc", "dec", "straggler", "random"}).Draw(t, "lat")
 	if p.N > 1000 {
 		p.Lat = "zero"
+	}
+	if par > 60 { // enough calls, all of them slow, so that as many run at once as the package lets run
+		p.N, p.Lat = 2*par+3, "flat"
 	}
 	// Nested: every call of f runs a small parallel.Do / Map of its own with the same parallelism argument
 	// (re-entrant use of the package: whatever the package shares between calls must not be exhausted by it)
@@ -91,6 +94,8 @@ func genPlan(t *rapid.T) Plan {
 
 func (p Plan) latency(i int) time.Duration {
 	switch p.Lat {
+	case "flat":
+		return 5 * time.Millisecond
 	case "inc":
 		return time.Duration(i+1) * time.Millisecond
 	case "dec":
@@ -344,6 +349,17 @@ func execute(p Plan, fake bool) (out vk.Outcome, verr error) {
 			return out, vk.Violf("map-result", "MapContext returned both a result and an error")
 		}
 	}
+	if len(p.Fail) == 0 && err != nil {
+		// no call fails (the calls here ignore their context and return nil): if every one of them has been made,
+		// there is nothing left to report - also when the caller's context ended while the last ones were running
+		all := true
+		for i := range pr.calls {
+			all = all && pr.calls[i].Load() == 1
+		}
+		if all && p.N > 0 {
+			return out, vk.Violf("spurious-error", "%s returned %v although all %d calls were made and every one of them returned nil (the caller's context ended while the last of them were running)", p.Fn, err, p.N)
+		}
+	}
 	if len(p.Fail) == 0 && p.Ctx == "live" && err != nil {
 		return out, vk.Violf("spurious-error", "%s returned %v although no call fails and the context stays live", p.Fn, err)
 	}
@@ -534,4 +550,92 @@ func runGmp(p GmpPlan) (vk.Outcome, error) {
 func TestGomaxprocs(t *testing.T) {
 	theT = t
 	vk.Run(t, suite, "gomaxprocs", 150, genGmp, runGmp)
+}
+
+// ---------------------------------------------------------------------------------------------
+// cancel-at-entry storm: the caller's context is cancelled around the instant DoContext / MapContext is
+// entered (swept offset, real goroutines). Whatever the package makes of it, it tells the truth: nil means
+// every call was made (and MapContext's results are complete), anything else is the context's error.
+
+type EntryStormPlan struct {
+	Fn      string `json:"fn"`
+	N       int    `json:"n"`
+	Par     int    `json:"par"`
+	Rounds  int    `json:"rounds"`
+	SpinMax int    `json:"spin_max"`
+}
+
+func genEntryStorm(t *rapid.T) EntryStormPlan {
+	return EntryStormPlan{Fn: rapid.SampledFrom([]string{"DoContext", "MapContext"}).Draw(t, "fn"), N: rapid.IntRange(2, 40).Draw(t, "n"),
+		Par: rapid.SampledFrom([]int{2, 3, 8, 0}).Draw(t, "par"), Rounds: rapid.IntRange(2000, 8000).Draw(t, "rounds"), SpinMax: rapid.SampledFrom([]int{1, 16, 64, 400}).Draw(t, "spinmax")}
+}
+
+var entrySink atomic.Int64
+
+func runEntryStorm(p EntryStormPlan) (vk.Outcome, error) {
+	var out vk.Outcome
+	in := make([]int, p.N)
+	for i := range in {
+		in[i] = i
+	}
+	hitNil, hitErr := 0, 0
+	for round := 0; round < p.Rounds; round++ {
+		ctx, cancel := sk.WithCancel(context.Background())
+		var goFlag atomic.Int32
+		cancelled := make(chan struct{})
+		go func() {
+			for goFlag.Load() == 0 {
+			}
+			for k := round % p.SpinMax; k > 0; k-- {
+				entrySink.Add(1)
+			}
+			cancel()
+			close(cancelled)
+		}()
+		calls := make([]atomic.Int32, p.N)
+		var err error
+		var mapped []int
+		goFlag.Store(1)
+		if p.Fn == "DoContext" {
+			err = parallel.DoContext(ctx, p.Par, p.N, func(_ context.Context, i int) error { calls[i].Add(1); return nil })
+		} else {
+			mapped, err = parallel.MapContext(ctx, p.Par, in, func(_ context.Context, i int) (int, error) { calls[i].Add(1); return 3*i + 2, nil })
+		}
+		<-cancelled
+		if err == nil {
+			hitNil++
+			for i := range calls {
+				if c := calls[i].Load(); c != 1 {
+					return out, vk.Violf("not-exactly-once", "round %d: %s returned nil (the caller's context was cancelled around the time of the call) but index %d was called %d times", round, p.Fn, i, c)
+				}
+			}
+			if p.Fn == "MapContext" {
+				if len(mapped) != p.N {
+					return out, vk.Violf("map-result", "round %d: MapContext returned nil and %d results for %d inputs", round, len(mapped), p.N)
+				}
+				for i, v := range mapped {
+					if v != 3*i+2 {
+						return out, vk.Violf("map-result", "round %d: MapContext returned nil, result[%d] = %d, want %d", round, i, v, 3*i+2)
+					}
+				}
+			}
+		} else {
+			hitErr++
+			if err != context.Canceled {
+				return out, vk.Violf("wrong-error", "round %d: %s returned %v; no call fails, the caller's context was cancelled", round, p.Fn, err)
+			}
+			for i := range calls {
+				if c := calls[i].Load(); c > 1 {
+					return out, vk.Violf("not-exactly-once", "round %d: index %d was called %d times", round, i, c)
+				}
+			}
+		}
+	}
+	out.NonTrivial = hitNil > 0 && hitErr > 0
+	out.Execs = p.Rounds
+	return out, nil
+}
+
+func TestCancelAtEntryStorm(t *testing.T) {
+	vk.Run(t, suite, "cancel-at-entry-storm", 60, genEntryStorm, runEntryStorm)
 }
